@@ -1128,6 +1128,46 @@ func (P *Prog) GuardsStable(in ssa.Instruction) []string {
 		}
 	}
 	sort.Strings(out)
+	return dropImpliedLiteralTests(out)
+}
+
+var litEqSplitRe = regexp.MustCompile(`^(!?)\(("[^"]*"|-?\d+) == (.*)\)$|^(!?)\((.*) == ("[^"]*"|-?\d+)\)$`)
+
+// dropImpliedLiteralTests: under x == "a", every x != "b" is implied; the negative tests a `case` inherits from the
+// cases written before it therefore say nothing (and change when disjoint cases are reordered).
+func dropImpliedLiteralTests(atoms []string) []string {
+	type lit struct {
+		neg    bool
+		val, x string
+	}
+	parse := func(a string) (lit, bool) {
+		m := litEqSplitRe.FindStringSubmatch(a)
+		if m == nil {
+			return lit{}, false
+		}
+		if m[2] != "" {
+			return lit{m[1] == "!", m[2], m[3]}, true
+		}
+		return lit{m[4] == "!", m[6], m[5]}, true
+	}
+	pos := map[string]string{} // x -> literal it equals
+	for _, a := range atoms {
+		if l, ok := parse(a); ok && !l.neg {
+			pos[l.x] = l.val
+		}
+	}
+	if len(pos) == 0 {
+		return atoms
+	}
+	var out []string
+	for _, a := range atoms {
+		if l, ok := parse(a); ok && l.neg {
+			if v, has := pos[l.x]; has && v != l.val {
+				continue
+			}
+		}
+		out = append(out, a)
+	}
 	return out
 }
 
